@@ -143,8 +143,8 @@ func pruneToCompile(r *core.Run, dir string, pkgs []*gen.Package) []*gen.Package
 			if b := bad[p.Name]; b != nil {
 				dropsDecl := false
 				for n := range b {
-					if !strings.HasPrefix(n, "host_") && !strings.HasPrefix(n, "case_") {
-						dropsDecl = true
+					if strings.Contains(n, ":") {
+						dropsDecl = true // a type / value / method declaration is not legal Go
 					}
 				}
 				if dropsDecl {
@@ -204,8 +204,25 @@ func runC02(r *core.Run) (bool, string) {
 
 // c02Judge judges every top-level function of an outside-atom package.
 func c02Judge(r *core.Run, p *tvPkg, verdicts map[string]string) {
-	r.Eval(1)
 	atom := strings.TrimPrefix(p.Name, "o_")
+	judgeRejectedOrFaithful(r, p, verdicts, "c02-", func(fn string) (string, string, bool) {
+		if strings.HasPrefix(fn, "host_") {
+			return atom, strings.TrimPrefix(fn, "host_"+atom+"_"), true
+		}
+		if strings.HasSuffix(fn, "_fn") {
+			return atom, fn, true
+		}
+		return "", "", false
+	})
+}
+
+// judgeRejectedOrFaithful: every judged function of the package is either rejected by a
+// conversion error located inside it (or inside a declaration it needs), or emitted and
+// faithful on all its closed cases; otherwise a violation sigPrefix+atom+"-mistranslated" /
+// "-silently-dropped".
+func judgeRejectedOrFaithful(r *core.Run, p *tvPkg, verdicts map[string]string, sigPrefix string, judged func(fn string) (atom, pos string, ok bool)) {
+	r.Eval(1)
+	atom := p.Name
 	if p.Crashed {
 		// a crash is neither a rejection nor a translation; it is C07's subject and reported there
 		r.Inconclusive("goose-crash")
@@ -237,11 +254,11 @@ func c02Judge(r *core.Run, p *tvPkg, verdicts map[string]string) {
 			}
 		}
 		if !located {
-			r.Violate("c02-error-outside-any-declaration-"+atom, "conversion error not located inside a declaration: "+e.Raw, map[string]interface{}{"pkg": p.Name, "source": src})
+			r.Violate(sigPrefix+"error-outside-any-declaration-"+atom, "conversion error not located inside a declaration: "+e.Raw, map[string]interface{}{"pkg": p.Name, "source": src})
 		}
 	}
 	if p.ParseErr != "" {
-		r.Violate("c02-unreadable-output-"+atom, "emitted file cannot be read by Coq's rules: "+p.ParseErr, map[string]interface{}{"pkg": p.Name, "source": src, "v": p.VFile})
+		r.Violate(sigPrefix+"unreadable-output-"+strings.TrimPrefix(atom, "o_"), "emitted file cannot be read by Coq's rules: "+p.ParseErr, map[string]interface{}{"pkg": p.Name, "source": src, "v": p.VFile})
 		return
 	}
 	// which function does each case call?
@@ -255,11 +272,11 @@ func c02Judge(r *core.Run, p *tvPkg, verdicts map[string]string) {
 		byFunc[callee] = append(byFunc[callee], c)
 	}
 	for _, fr := range ranges {
-		if !strings.HasPrefix(fr.Name, "host_") && !strings.HasSuffix(fr.Name, "_fn") {
+		atom, pos, ok := judged(fr.Name)
+		if !ok {
 			continue
 		}
 		r.Count("functions_judged", 1)
-		pos := strings.TrimPrefix(fr.Name, "host_"+atom+"_")
 		key := atom + "/" + pos
 		if why, ok := rejected[fr.Name]; ok {
 			verdicts[key] = "rejected: " + why
@@ -269,9 +286,17 @@ func c02Judge(r *core.Run, p *tvPkg, verdicts map[string]string) {
 		}
 		// a declaration-level atom may be rejected at one of its helper declarations
 		helperRejected := ""
-		if strings.HasSuffix(fr.Name, "_fn") {
+		if strings.HasSuffix(fr.Name, "_fn") || strings.HasPrefix(fr.Name, "cell_") {
+			// only a rejected declaration this function (transitively) mentions excuses it
+			reach := reachableNames(src, fr.Name)
 			for n, why := range rejected {
-				helperRejected = n + ": " + why
+				bare := n
+				if i := strings.Index(n, ":"); i >= 0 {
+					bare = n[i+1:]
+				}
+				if !strings.HasPrefix(n, "cell_") && !strings.HasPrefix(n, "host_") && reach[bare] {
+					helperRejected = n + ": " + why
+				}
 			}
 		}
 		agree, mism, notEmitted, incon := 0, 0, 0, 0
@@ -304,12 +329,12 @@ func c02Judge(r *core.Run, p *tvPkg, verdicts map[string]string) {
 		case mism > 0:
 			verdicts[key] = "MISTRANSLATED"
 			r.Distinct(key + "/mistranslated")
-			r.Violate("c02-"+atom+"-mistranslated", fmt.Sprintf("atom %q at position %s is accepted but the emitted GooseLang disagrees with Go: %s returned %s, GooseLang %s", atom, pos, firstBad.Case, firstBad.GoValue, firstBad.GL),
+			r.Violate(sigPrefix+atom+"-mistranslated", fmt.Sprintf("atom %q at position %s is accepted but the emitted GooseLang disagrees with Go: %s returned %s, GooseLang %s", atom, pos, firstBad.Case, firstBad.GoValue, firstBad.GL),
 				map[string]interface{}{"atom": atom, "position": pos, "function": funcSource(src, fr.Name), "case": firstBad, "v": p.VFile})
 		case notEmitted > 0:
 			verdicts[key] = "DROPPED"
 			r.Distinct(key + "/dropped")
-			r.Violate("c02-"+atom+"-silently-dropped", fmt.Sprintf("atom %q at position %s: no error is reported for %s but its definition (or that of %s) is missing from the output", atom, pos, fr.Name, firstBad.Case),
+			r.Violate(sigPrefix+atom+"-silently-dropped", fmt.Sprintf("atom %q at position %s: no error is reported for %s but its definition (or that of %s) is missing from the output", atom, pos, fr.Name, firstBad.Case),
 				map[string]interface{}{"atom": atom, "position": pos, "function": funcSource(src, fr.Name), "v": p.VFile, "stderr": p.Stderr})
 		case incon > 0 && agree == 0:
 			verdicts[key] = "inconclusive"
@@ -367,4 +392,71 @@ func c02Failing(p *tvPkg) (bool, string) {
 		}
 	}
 	return false, ""
+}
+
+// reachableNames returns the package-level names transitively mentioned by function fn.
+func reachableNames(src, fn string) map[string]bool {
+	fset := token.NewFileSet()
+	f, err := parser.ParseFile(fset, "x.go", src, 0)
+	if err != nil {
+		return nil
+	}
+	uses := map[string]map[string]bool{}
+	var declName func(d ast.Decl) []string
+	declName = func(d ast.Decl) []string {
+		switch d := d.(type) {
+		case *ast.FuncDecl:
+			return []string{d.Name.Name}
+		case *ast.GenDecl:
+			var out []string
+			for _, sp := range d.Specs {
+				switch sp := sp.(type) {
+				case *ast.TypeSpec:
+					out = append(out, sp.Name.Name)
+				case *ast.ValueSpec:
+					for _, n := range sp.Names {
+						out = append(out, n.Name)
+					}
+				}
+			}
+			return out
+		}
+		return nil
+	}
+	top := map[string]bool{}
+	for _, d := range f.Decls {
+		for _, n := range declName(d) {
+			top[n] = true
+		}
+	}
+	for _, d := range f.Decls {
+		names := declName(d)
+		m := map[string]bool{}
+		ast.Inspect(d, func(n ast.Node) bool {
+			if id, ok := n.(*ast.Ident); ok && top[id.Name] {
+				m[id.Name] = true
+			}
+			return true
+		})
+		// methods are reachable from their receiver type
+		if fd, ok := d.(*ast.FuncDecl); ok && fd.Recv != nil {
+			continue
+		}
+		for _, n := range names {
+			uses[n] = m
+		}
+	}
+	seen := map[string]bool{}
+	var walk func(n string)
+	walk = func(n string) {
+		if seen[n] {
+			return
+		}
+		seen[n] = true
+		for u := range uses[n] {
+			walk(u)
+		}
+	}
+	walk(fn)
+	return seen
 }
